@@ -44,7 +44,7 @@ REQUIRED_CELLS = {
     'thorough': [],
 }
 
-TOL = 1e-11
+TOL = 1e-12
 
 
 def _zero_pattern(a):
@@ -59,10 +59,10 @@ def _expect_fields(ctx, rxn, spec, pnames, basis, MW, phases, region):
         ctx.fail(f'build.stoichiometry|{region}|shape', f'{got.shape} vs {nu.shape}')
     sc = max(1.0, float(np.abs(nu).max()))
     err = float(np.abs(got - nu).max())
-    ctx.metric_max('stoichiometry:rel_err', err / sc)
     if not err <= 1e-12 * sc:
         ctx.fail(f'build.stoichiometry|{region}|mismatch',
                  f'stoichiometry {got.tolist()} differs from the normalised definition {nu.tolist()}')
+    ctx.metric_max('stoichiometry:rel_err', err / sc)
     want_r = (spec.phase_of[spec.reactant], spec.reactant) if phases else spec.reactant
     if rxn.reactant != want_r:
         ctx.fail(f'build.reactant|{region}|mismatch', f'{rxn.reactant!r} != {want_r!r}')
@@ -439,10 +439,20 @@ def prop_balance(ch, ctx):
             ctx.fail(f'correct_atomic_balance|{region}|unbalanced', f'result is not balanced: {(A @ gm).tolist()}')
         return
     err = float(np.abs(got - true_nu).max()) if got.shape == true_nu.shape else float('inf')
-    ctx.metric_max(f'{op.split("_ctor")[0]}:rel_err', err / sc)
-    if not err <= 1e-9 * sc:
-        ctx.fail(f'{op.replace("_ctor", "")}_balance|{region}|mismatch' if False else f'{"correct_atomic_balance" if "atomic" in op else "correct_mass_balance"}|{region}|mismatch',
+    if 'atomic' in op:
+        tol = 1e-9 * sc                          # linear solve
+    else:
+        # flexsolve.aitken_secant stops at |sum of weight coefficients| < ytol = 5e-8 (absolute), i.e. the
+        # corrected reactant coefficient may be off by up to 5e-8 weight units before the stoichiometry is rescaled
+        # (the constructor first rescales on the perturbed reactant coefficient, so the true weight
+        # coefficient of the reactant is (MW_r or 1) / perturbation factor)
+        x_wt = (MW[pnames.index(reactant)] if basis == 'mol' else 1.0) / float(fac[reactant])
+        tol = (1.5 * 5e-8 / x_wt + 1e-12) * sc
+    site = 'correct_atomic_balance' if 'atomic' in op else 'correct_mass_balance'
+    if not err <= tol:
+        ctx.fail(f'{site}|{region}|mismatch',
                  f'corrected stoichiometry {got.tolist()} is not the balanced one {true_nu.tolist()}')
+    ctx.metric_max(f'{site}:err/tol', err / tol)
     ctx.nontriv(['balance', op, basis, list(phases), spec.summary(), sorted((k, str(v)) for k, v in fac.items())])
 
 
